@@ -1,6 +1,7 @@
 (* Escape on write (emitter.py) and un-escape on read (lexer.py STRING branch).
-   Both are transcribed as the SEQUENTIAL str.replace chains of the source; the chains
-   themselves come from the translator (Gen/EmitterGen.v, Gen/LexerGen.v). *)
+   The emitter's escape is the SEQUENTIAL str.replace chain of the source (Gen/EmitterGen.v); the lexer's un-escape is
+   ONE left-to-right regex substitution over the map _UNESCAPE_MAP (Gen/LexerGen.v) since /repo 4b61c18 -- before that
+   it was four sequential replaces, which turned backslash+n into a newline (the former finding C04-escape-order). *)
 From OV Require Import Base.Strs Gen.EmitterGen Gen.LexerGen.
 Open Scope N_scope.
 
@@ -41,7 +42,26 @@ Definition emit_value_chain : list (str * str) :=
   end.
 
 Definition escape_opt (s : str) : option str := apply_chain emit_value_chain s.
-Definition unescape_opt (s : str) : option str := apply_chain lexer_unescape_chain s.
+(* re.sub(PATTERN, lambda m: MAP[m.group(1)], s) with PATTERN = backslash followed by one of the map keys:
+   leftmost non-overlapping matches, one pass *)
+Fixpoint assoc_n (k : N) (m : list (N * N)) : option N :=
+  match m with [] => None | (a, b) :: r => if N.eqb a k then Some b else assoc_n k r end.
+Fixpoint unescape1 (m : list (N * N)) (s : str) : str :=
+  match s with
+  | x :: s' =>
+      match s' with
+      | y :: s'' =>
+          if N.eqb x c_bs then
+            match assoc_n y m with Some c => c :: unescape1 m s'' | None => x :: unescape1 m s' end
+          else x :: unescape1 m s'
+      | [] => [x]
+      end
+  | [] => []
+  end.
+(* None = the generated pattern is not the one the scanner above transcribes *)
+Definition unescape_pattern_known : bool := str_eqb lexer_unescape_pattern [92;92;40;91;34;92;92;110;116;93;41].
+Definition unescape_opt (s : str) : option str :=
+  if unescape_pattern_known then Some (unescape1 lexer_unescape_map s) else None.
 
 (* closed forms the proofs are about *)
 Definition esc_chr (c : N) : str :=
@@ -52,8 +72,8 @@ Definition esc_chr (c : N) : str :=
   else [c].
 Definition escape (s : str) : str := flat_map esc_chr s.
 
-Definition unescape (s : str) : str :=
-  replace2 c_bs c_t c_tab (replace2 c_bs c_n c_nl (replace2 c_bs c_bs c_bs (replace2 c_bs c_dq c_dq s))).
+Definition unescape_map : list (N * N) := [(c_dq, c_dq); (c_bs, c_bs); (c_n, c_nl); (c_t, c_tab)].
+Definition unescape (s : str) : str := unescape1 unescape_map s.
 
 (* ---- the generated chains are the ones the closed forms describe ---------------- *)
 Definition pair_eqb (p q : str * str) : bool := str_eqb (fst p) (fst q) && str_eqb (snd p) (snd q).
@@ -73,9 +93,8 @@ Lemma emit_chain_pin :
   emit_value_chain = [([c_bs], [c_bs; c_bs]); ([c_dq], [c_bs; c_dq]); ([c_nl], [c_bs; c_n]); ([c_tab], [c_bs; c_t])].
 Proof. vm_compute. reflexivity. Qed.
 
-Lemma lexer_chain_pin :
-  lexer_unescape_chain = [([c_bs; c_dq], [c_dq]); ([c_bs; c_bs], [c_bs]); ([c_bs; c_n], [c_nl]); ([c_bs; c_t], [c_tab])].
-Proof. vm_compute. reflexivity. Qed.
+Lemma lexer_map_pin : lexer_unescape_map = unescape_map /\ unescape_pattern_known = true.
+Proof. vm_compute. split; reflexivity. Qed.
 
 Lemma replace1_app a new u v : replace1 a new (u ++ v) = replace1 a new u ++ replace1 a new v.
 Proof. unfold replace1. apply flat_map_app. Qed.
@@ -111,49 +130,20 @@ Theorem escape_opt_spec s : escape_opt s = Some (escape s).
 Proof. unfold escape_opt. rewrite emit_chain_pin. cbn [apply_chain apply_replace]. rewrite <- chain4_escape. reflexivity. Qed.
 
 Theorem unescape_opt_spec s : unescape_opt s = Some (unescape s).
-Proof. unfold unescape_opt. rewrite lexer_chain_pin. reflexivity. Qed.
+Proof. unfold unescape_opt, unescape. destruct lexer_map_pin as [-> ->]. reflexivity. Qed.
 
-(* ---- replace2 step lemmas -------------------------------------------------------- *)
+(* ---- helpers about the escape letters (used by the Rt files) ------------------------------------------------ *)
 Definition hd_ne (b : N) (s : str) : Prop := match s with [] => True | y :: _ => y <> b end.
-
-Lemma replace2_ne a b c x s : x <> a -> replace2 a b c (x :: s) = x :: replace2 a b c s.
-Proof.
-  intro H. destruct s as [|y s]; cbn [replace2]; [reflexivity|].
-  rewrite (proj2 (N.eqb_neq _ _) H). reflexivity.
-Qed.
-
-Lemma replace2_skip a b c s : hd_ne b s -> replace2 a b c (a :: s) = a :: replace2 a b c s.
-Proof.
-  intro H. destruct s as [|y s]; cbn [replace2]; [reflexivity|].
-  cbn in H. rewrite (proj2 (N.eqb_neq _ _) H), andb_false_r. reflexivity.
-Qed.
-
-Lemma replace2_hit a b c s : replace2 a b c (a :: b :: s) = c :: replace2 a b c s.
-Proof. cbn [replace2]. rewrite !N.eqb_refl. reflexivity. Qed.
-
-(* intermediate encodings *)
-Definition e1 (c : N) : str :=
-  if N.eqb c c_bs then [c_bs; c_bs] else if N.eqb c c_nl then [c_bs; c_n] else if N.eqb c c_tab then [c_bs; c_t] else [c].
-Definition e2 (c : N) : str :=
-  if N.eqb c c_nl then [c_bs; c_n] else if N.eqb c c_tab then [c_bs; c_t] else [c].
-Definition e3 (c : N) : str := if N.eqb c c_tab then [c_bs; c_t] else [c].
 
 Ltac cases c H1 H2 H3 H4 :=
   destruct (N.eqb_spec c c_bs) as [->|H1]; [|destruct (N.eqb_spec c c_dq) as [->|H2];
     [|destruct (N.eqb_spec c c_nl) as [->|H3]; [|destruct (N.eqb_spec c c_tab) as [->|H4]]]].
 
-Ltac other :=
-  unfold esc_chr, e1, e2, e3;
-  repeat match goal with H : ?x <> ?y |- _ => rewrite (proj2 (N.eqb_neq x y) H); clear H end; reflexivity.
-
 Lemma esc_other c : c <> c_bs -> c <> c_dq -> c <> c_nl -> c <> c_tab -> esc_chr c = [c].
-Proof. intros. other. Qed.
-Lemma e1_other c : c <> c_bs -> c <> c_nl -> c <> c_tab -> e1 c = [c].
-Proof. intros. other. Qed.
-Lemma e2_other c : c <> c_nl -> c <> c_tab -> e2 c = [c].
-Proof. intros. other. Qed.
-Lemma e3_other c : c <> c_tab -> e3 c = [c].
-Proof. intros. other. Qed.
+Proof.
+  intros. unfold esc_chr.
+  repeat match goal with H : ?x <> ?y |- _ => rewrite (proj2 (N.eqb_neq x y) H); clear H end. reflexivity.
+Qed.
 
 Lemma hd_esc s : hd_ne c_dq (flat_map esc_chr s).
 Proof.
@@ -162,120 +152,6 @@ Proof.
   rewrite esc_other by assumption. cbn. assumption.
 Qed.
 
-Lemma step1 s : replace2 c_bs c_dq c_dq (flat_map esc_chr s) = flat_map e1 s.
-Proof.
-  induction s as [|c s IH]; [reflexivity|]. cbn [flat_map].
-  cases c H1 H2 H3 H4.
-  - change (esc_chr c_bs) with [c_bs; c_bs]. change (e1 c_bs) with [c_bs; c_bs]. cbn [app].
-    rewrite replace2_skip by (cbn; discriminate).
-    rewrite replace2_skip by apply hd_esc. rewrite IH. reflexivity.
-  - change (esc_chr c_dq) with [c_bs; c_dq]. change (e1 c_dq) with [c_dq]. cbn [app].
-    rewrite replace2_hit, IH. reflexivity.
-  - change (esc_chr c_nl) with [c_bs; c_n]. change (e1 c_nl) with [c_bs; c_n]. cbn [app].
-    rewrite replace2_skip by (cbn; discriminate). rewrite replace2_ne by discriminate. rewrite IH. reflexivity.
-  - change (esc_chr c_tab) with [c_bs; c_t]. change (e1 c_tab) with [c_bs; c_t]. cbn [app].
-    rewrite replace2_skip by (cbn; discriminate). rewrite replace2_ne by discriminate. rewrite IH. reflexivity.
-  - rewrite esc_other, e1_other by assumption. cbn [app].
-    rewrite replace2_ne by assumption. rewrite IH. reflexivity.
-Qed.
-
-Lemma step2 s : replace2 c_bs c_bs c_bs (flat_map e1 s) = flat_map e2 s.
-Proof.
-  induction s as [|c s IH]; [reflexivity|]. cbn [flat_map].
-  destruct (N.eqb_spec c c_bs) as [->|H1]; [|destruct (N.eqb_spec c c_nl) as [->|H3]; [|destruct (N.eqb_spec c c_tab) as [->|H4]]].
-  - change (e1 c_bs) with [c_bs; c_bs]. change (e2 c_bs) with [c_bs]. cbn [app].
-    rewrite replace2_hit, IH. reflexivity.
-  - change (e1 c_nl) with [c_bs; c_n]. change (e2 c_nl) with [c_bs; c_n]. cbn [app].
-    rewrite replace2_skip by (cbn; discriminate). rewrite replace2_ne by discriminate. rewrite IH. reflexivity.
-  - change (e1 c_tab) with [c_bs; c_t]. change (e2 c_tab) with [c_bs; c_t]. cbn [app].
-    rewrite replace2_skip by (cbn; discriminate). rewrite replace2_ne by discriminate. rewrite IH. reflexivity.
-  - rewrite e1_other, e2_other by assumption. cbn [app].
-    rewrite replace2_ne by assumption. rewrite IH. reflexivity.
-Qed.
-
-(* the defect class of the sequential un-escape: a backslash directly before `b` *)
-Fixpoint no_bs_before (b : N) (s : str) : bool :=
-  match s with
-  | x :: s' => match s' with
-               | y :: _ => negb (N.eqb x c_bs && N.eqb y b) && no_bs_before b s'
-               | [] => true
-               end
-  | [] => true
-  end.
-
-Lemma no_bs_before_tl b x s : no_bs_before b (x :: s) = true -> no_bs_before b s = true.
-Proof. destruct s as [|y s]; cbn [no_bs_before]; [reflexivity|]. intro H. apply andb_true_iff in H. tauto. Qed.
-
-Lemma hd_e2 s : no_bs_before c_n (c_bs :: s) = true -> hd_ne c_n (flat_map e2 s).
-Proof.
-  destruct s as [|d s]; cbn [flat_map]; [intros; exact I|]. intro H.
-  cbn [no_bs_before] in H. apply andb_true_iff in H as [H _].
-  change (N.eqb c_bs c_bs) with true in H. cbn [andb] in H. apply negb_true_iff, N.eqb_neq in H.
-  destruct (N.eqb_spec d c_nl) as [->|H3]; [cbn; discriminate|].
-  destruct (N.eqb_spec d c_tab) as [->|H4]; [cbn; discriminate|].
-  rewrite e2_other by assumption. cbn. assumption.
-Qed.
-
-Lemma step3 s : no_bs_before c_n s = true -> replace2 c_bs c_n c_nl (flat_map e2 s) = flat_map e3 s.
-Proof.
-  induction s as [|c s IH]; [reflexivity|]. intro H. pose proof (no_bs_before_tl _ _ _ H) as Ht.
-  cbn [flat_map].
-  destruct (N.eqb_spec c c_nl) as [->|H3]; [|destruct (N.eqb_spec c c_tab) as [->|H4]].
-  - change (e2 c_nl) with [c_bs; c_n]. change (e3 c_nl) with [c_nl]. cbn [app].
-    rewrite replace2_hit, IH by assumption. reflexivity.
-  - change (e2 c_tab) with [c_bs; c_t]. change (e3 c_tab) with [c_bs; c_t]. cbn [app].
-    rewrite replace2_skip by (cbn; discriminate). rewrite replace2_ne by discriminate.
-    rewrite IH by assumption. reflexivity.
-  - rewrite e2_other, e3_other by assumption. cbn [app].
-    destruct (N.eqb_spec c c_bs) as [->|H1].
-    + rewrite replace2_skip by (apply hd_e2; exact H). rewrite IH by assumption. reflexivity.
-    + rewrite replace2_ne by assumption. rewrite IH by assumption. reflexivity.
-Qed.
-
-Lemma hd_e3 s : no_bs_before c_t (c_bs :: s) = true -> hd_ne c_t (flat_map e3 s).
-Proof.
-  destruct s as [|d s]; cbn [flat_map]; [intros; exact I|]. intro H.
-  cbn [no_bs_before] in H. apply andb_true_iff in H as [H _].
-  change (N.eqb c_bs c_bs) with true in H. cbn [andb] in H. apply negb_true_iff, N.eqb_neq in H.
-  destruct (N.eqb_spec d c_tab) as [->|H4]; [cbn; discriminate|].
-  rewrite e3_other by assumption. cbn. assumption.
-Qed.
-
-Lemma step4 s : no_bs_before c_t s = true -> replace2 c_bs c_t c_tab (flat_map e3 s) = s.
-Proof.
-  induction s as [|c s IH]; [reflexivity|]. intro H. pose proof (no_bs_before_tl _ _ _ H) as Ht.
-  cbn [flat_map].
-  destruct (N.eqb_spec c c_tab) as [->|H4].
-  - change (e3 c_tab) with [c_bs; c_t]. cbn [app]. rewrite replace2_hit, IH by assumption. reflexivity.
-  - rewrite e3_other by assumption. cbn [app].
-    destruct (N.eqb_spec c c_bs) as [->|H1].
-    + rewrite replace2_skip by (apply hd_e3; exact H). rewrite IH by assumption. reflexivity.
-    + rewrite replace2_ne by assumption. rewrite IH by assumption. reflexivity.
-Qed.
-
-Definition escape_safe (s : str) : bool := no_bs_before c_n s && no_bs_before c_t s.
-
-(* MAIN: un-escape inverts escape on every string without backslash directly before n / t *)
-Theorem unescape_escape s : escape_safe s = true -> unescape (escape s) = s.
-Proof.
-  unfold escape_safe, unescape, escape. intro H. apply andb_true_iff in H as [Hn Ht].
-  rewrite step1, step2, step3, step4 by assumption. reflexivity.
-Qed.
-
-(* ... and the restriction is necessary: the sequential chain mis-reads backslash+n (finding C04-escape-order) *)
-Lemma unescape_escape_refuted : exists s, unescape (escape s) <> s.
-Proof. exists [c_bs; c_n]. vm_compute. discriminate. Qed.
-
-(* every string that violates escape_safe by its FIRST such pair is mis-read: the defect class is exact
-   on two-character witnesses *)
-Lemma unescape_escape_refuted_t : unescape (escape [c_bs; c_t]) = [c_tab].
-Proof. vm_compute. reflexivity. Qed.
-
-(* non-vacuity: a string with every escaped character and backslashes satisfies the hypothesis *)
-Example escape_safe_example : escape_safe [c_bs; c_bs; c_dq; c_nl; c_tab; 97; c_bs; c_dq; c_bs] = true.
-Proof. vm_compute. reflexivity. Qed.
-
-(* escaped text contains no raw newline, tab or unescaped quote: what the single-quote scanner needs *)
 Lemma escape_no_nl s : memb c_nl (escape s) = false.
 Proof.
   induction s as [|c s IH]; [reflexivity|]. unfold escape in *. cbn [flat_map].
@@ -283,3 +159,45 @@ Proof.
   cases c H1 H2 H3 H4; try reflexivity.
   rewrite esc_other by assumption. cbn [existsb]. rewrite orb_false_r. apply N.eqb_neq. congruence.
 Qed.
+
+(* ---- un-escape inverts escape, for EVERY string ------------------------------------------------- *)
+Lemma unescape1_esc c s : unescape (esc_chr c ++ s) = c :: unescape s.
+Proof.
+  unfold unescape, esc_chr.
+  destruct (N.eqb_spec c c_bs) as [->|Hbs]; [reflexivity|].
+  destruct (N.eqb_spec c c_dq) as [->|Hdq]; [reflexivity|].
+  destruct (N.eqb_spec c c_nl) as [->|Hnl]; [reflexivity|].
+  destruct (N.eqb_spec c c_tab) as [->|Htab]; [reflexivity|].
+  cbn [app]. destruct s as [|y s'']; cbn [unescape1]; [reflexivity|].
+  rewrite (proj2 (N.eqb_neq _ _) Hbs). reflexivity.
+Qed.
+
+Theorem unescape_escape_all s : unescape (escape s) = s.
+Proof.
+  induction s as [|c s IH]; [reflexivity|].
+  unfold escape. cbn [flat_map]. fold (escape s). rewrite unescape1_esc, IH. reflexivity.
+Qed.
+
+(* kept for the developments written against the four-replace reader, where this side condition was necessary
+   (no backslash directly before n or t); it is no longer needed *)
+Fixpoint no_bs_before (b : N) (s : str) : bool :=
+  match s with
+  | x :: s' => (match s' with y :: _ => negb (N.eqb x c_bs && N.eqb y b) | [] => true end) && no_bs_before b s'
+  | [] => true
+  end.
+Definition escape_safe (s : str) : bool := no_bs_before c_n s && no_bs_before c_t s.
+Theorem unescape_escape s : escape_safe s = true -> unescape (escape s) = s.
+Proof. intros _. apply unescape_escape_all. Qed.
+
+(* regression: the strings the four-replace reader got wrong *)
+Example unescape_escape_bs_n : unescape (escape [c_bs; c_n]) = [c_bs; c_n] /\ unescape (escape [c_bs; c_t]) = [c_bs; c_t].
+Proof. split; apply unescape_escape_all. Qed.
+(* the sequential reader, for the record: it maps the escaped form of backslash+n to a newline *)
+Definition unescape_sequential (s : str) : str :=
+  replace2 c_bs c_t c_tab (replace2 c_bs c_n c_nl (replace2 c_bs c_bs c_bs (replace2 c_bs c_dq c_dq s))).
+Example sequential_reader_was_wrong : unescape_sequential (escape [c_bs; c_n]) = [c_nl].
+Proof. vm_compute. reflexivity. Qed.
+
+Example escape_safe_example : escape_safe [c_bs; c_bs; c_dq; c_nl; c_tab; 97; c_bs; c_dq; c_bs] = true.
+Proof. vm_compute. reflexivity. Qed.
+
